@@ -350,7 +350,7 @@ def evaluate(case):
             endocc = np.array(end.occ, dtype=np.int8).tobytes()
             if mp is None:
                 hit = [st for st in sorted(states) if endocc in orbit(st)]
-                if kind == 'I' or hit:
+                if hit:   # (None is legitimate only when no state supercell is equivalent to the endpoint under sup.G)
                     V('mapping-missing', kk, {'tag': tag, 'states that are equivalent to the endpoint': [ctag(h) for h in hit]})
                 else:
                     nunmapped += 1; outcomes.add(('unmapped', ttype))
